@@ -386,6 +386,40 @@ def j14(rep):
                       "output on the Java route, while the interpreter and the executable print it")
 
 
+def j15(rep):
+    """Aldor strings are mutable and a string made from a literal *is* the literal's array (libaldor's `string: Literal -> %`
+    does not copy).  The interpreter and the C route build a fresh array each time a literal is evaluated; so must the Java
+    route: gj0ArrChar emits `"abc\0".toCharArray()`, which allocates.  A run-time helper that hands out one array per literal
+    text makes an in-place update of a string visible in every later evaluation of that literal (and of every other literal
+    with the same text): same exit status, different output.  The expression returned by gj0ArrChar applies `toCharArray` to
+    the literal; anything else is a violation when the helper it names keeps a static map, otherwise refused."""
+    f = common.extract("java/genjava.c", trees=["gj0ArrChar"])
+    fn = f.func("gj0ArrChar")
+    rets = [x for x in walk(fn["body"]) if x["k"] == "ReturnStmt" and x.get("c") and x["c"][0] is not None]
+    if len(rets) != 1:
+        raise AnalysisBroken("gj0ArrChar: expected one return")
+    lits = [y.get("v") for y in walk(rets[0]) if y["k"] == "StringLiteral"]
+    where = "java/genjava.c:%d (gj0ArrChar)" % rets[0]["l"]
+    if "toCharArray" in lits:
+        rep.ok("J15", "literal-array-fresh-per-evaluation", sample={"method": "toCharArray"})
+        return
+    helper = [v for v in lits if v and re.match(r"^[A-Za-z_]\w*$", v)]
+    text = _java_text(os.path.join(common.JAVA_RT, "Foam.java"))
+    for h in helper:
+        m = re.search(r"\bstatic\s+[\w\[\]<>, ]+\s+%s\s*\([^)]*\)\s*\{" % re.escape(h), text)
+        if m:
+            body = text[m.end() - 1:_block(text, m.end() - 1)]
+            if re.search(r"\.\s*(get|computeIfAbsent|putIfAbsent)\s*\(", body):
+                rep.violation("J15", "literal-array-fresh-per-evaluation", where,
+                              "the array of a string literal is obtained from Foam.%s, which looks it up in a table: every "
+                              "evaluation of the literal (and every literal with the same text) shares one array, so a string "
+                              "updated in place (`s.i := c`) changes what the literal yields next time; the interpreter and the "
+                              "executable allocate a new array each time" % h)
+                return
+    raise AnalysisBroken("gj0ArrChar no longer emits `<literal>.toCharArray()` (%s): whether each evaluation gets a fresh array "
+                         "cannot be told" % lits)
+
+
 def j13(rep):
     """gj0BInt writes a big-integer constant either as BigInteger.valueOf(<integer literal>) or as new BigInteger("<digits>").
     jcLiteralInteger prints through `%d`, and a Java integer literal without suffix is an `int`: the literal path is only right
@@ -749,6 +783,7 @@ def run(tier, only=None):
     j11(rep)
     j13(rep)
     j14(rep)
+    j15(rep)
     from . import variant_dispatch
     variant_dispatch.report(rep, "J12", common.extract("java/genjava.c", all_trees=True), "genjava.c", "gj0Gen0", 35)
     from . import variadic
